@@ -377,6 +377,16 @@ mod child {
         v.push(format!("../{}", "L".repeat(300)));
         v.push(format!("{}/../../x", "L".repeat(300)));
         v.push("d/".repeat(150) + "x");
+        // very long names made of multi-byte characters, with 0..3 ASCII bytes in front so that every byte
+        // offset falls inside a character for one of them (error texts and hashed sub-directory names are
+        // derived by slicing the string)
+        for (ch, total) in [('é', 1002usize), ('漢', 1003), ('𝔘', 1004), ('ü', 4100), ('é', 260)] {
+            for lead in 0..ch.len_utf8().min(3) + 1 {
+                let body: String = std::iter::repeat_n(ch, total / ch.len_utf8()).collect();
+                v.push(format!("{}{}", "/ab".chars().take(lead).collect::<String>(), body));
+            }
+        }
+        v.push(format!("v1/products/{}/versions", "é".repeat(600)));
         // absolute paths: only below the sandbox parent so that nothing real can be harmed
         for name in ["canary.txt", "sibling/canary.txt", "secret.bpsv"] {
             v.push(format!("{p}/{name}"));
@@ -405,6 +415,10 @@ mod child {
             for _ in 0..n {
                 if rng.chance(1, 40) {
                     parts.push("L".repeat(250 + rng.usize_below(60)));
+                } else if rng.chance(1, 40) {
+                    let ch = *rng.pick(&['é', '漢', '𝔘']);
+                    let lead = "abc".chars().take(rng.usize_below(4)).collect::<String>();
+                    parts.push(format!("{lead}{}", std::iter::repeat_n(ch, 120 + rng.usize_below(400)).collect::<String>()));
                 } else {
                     parts.push((*rng.pick(SEGS)).to_string());
                 }
